@@ -159,7 +159,7 @@ def op_autophase(a, dim, out=1):
     return {"op": "proc", "f": "autophase", "obj": a["id"], "out": out, "kw": {"dim": dim, "cis": cis}}
 
 
-def op_ft(a, dim, zff=1, shift=True, convert=False, inverse=False, ppm=None, out=1, n_in=None):
+def op_ft(a, dim, zff=1, shift=True, convert=False, inverse=False, ppm=None, out=1, n_in=None, style=None):
     n_in = n_in or a["shape"][a["dims"].index(dim)]
     n = max(1, zff) * n_in
     sign = 1 if inverse else -1
@@ -171,6 +171,8 @@ def op_ft(a, dim, zff=1, shift=True, convert=False, inverse=False, ppm=None, out
         kw["convert"] = True
     if ppm is not None:
         kw["ppm"] = str(ppm)
+    if style:
+        kw["flag_style"] = style      # how the implementation receives its boolean flags (read by ImplStore only)
     return {"op": "proc", "f": "inverse_fourier_transform" if inverse else "fourier_transform", "obj": a["id"], "out": out, "kw": kw}
 
 
